@@ -31,6 +31,13 @@ type Outcome struct {
 	Fail       string // non-empty: the property is violated on this case
 	Known      string // non-empty: id of the known finding that explains the failure
 	Skip       bool   // case outside the asserted domain (counted separately)
+	// A case may bundle many elementary evaluations (one shape x many query
+	// points): Evals is their number (0 means 1) and Keys the distinctness keys
+	// of the non-trivial ones (nil means: the case's own key if Nontrivial).
+	Evals       int64
+	Keys        []uint64
+	LabelCounts map[string]int64 // per-evaluation label histogram of a bundled case
+	Infra       string           // non-empty: harness self-check failed (exit 2, never a violation)
 }
 
 // OK is a passing outcome.
@@ -410,7 +417,18 @@ const maxSamples = 60
 
 // count is generic through a closure to avoid reflection on hot paths.
 func (r *Rec) countKeyed(sub string, st *SubStat, k func() uint64, enc func() json.RawMessage, o Outcome) {
-	st.Evaluations++
+	if o.Infra != "" {
+		if len(r.infraErrs) < 5 {
+			r.infraErrs = append(r.infraErrs, sub+": "+o.Infra+" case="+string(enc()))
+			fmt.Printf("INFRA property=%s %s: %s\n", r.Property, sub, o.Infra)
+		}
+		return
+	}
+	if o.Evals > 0 {
+		st.Evaluations += o.Evals
+	} else {
+		st.Evaluations++
+	}
 	if o.Skip {
 		st.Skipped++
 		return
@@ -427,8 +445,19 @@ func (r *Rec) countKeyed(sub string, st *SubStat, k func() uint64, enc func() js
 	if label == "" {
 		label = "-"
 	}
-	st.Labels[label]++
-	if o.Nontrivial {
+	if o.LabelCounts != nil {
+		for l, n := range o.LabelCounts {
+			st.Labels[l] += n
+		}
+	} else {
+		st.Labels[label]++
+	}
+	if o.Keys != nil {
+		st.Nontrivial += int64(len(o.Keys))
+		for _, h := range o.Keys {
+			r.hashes[h] = struct{}{}
+		}
+	} else if o.Nontrivial {
 		st.Nontrivial++
 		r.hashes[k()] = struct{}{}
 	}
